@@ -2017,7 +2017,9 @@ func (s *Server) Serve(ln net.Listener) error {
 		}
 		s.setState(c, StateNew)
 		s.open.Add(1)
+		vhook("srv.open.inc", s, c, 0, 0)
 		if !wp.Serve(c) {
+			vhook("srv.open.dec", s, c, 1, 0)
 			s.open.Add(-1)
 			s.rejectedRequestsCount.Add(1)
 			s.writeFastError(c, StatusServiceUnavailable,
@@ -2227,6 +2229,7 @@ func (s *Server) ServeConn(c net.Conn) error {
 	defer s.releaseConcurrency()
 
 	s.open.Add(1)
+	vhook("srv.open.inc", s, c, 1, 0)
 
 	err := s.serveConnCounted(c, false)
 
@@ -2240,14 +2243,17 @@ func (s *Server) ServeConn(c net.Conn) error {
 		err = nil
 		s.setState(c, StateHijacked)
 	}
+	vhook("srv.conc.dec", s, c, 1, 0)
 	return err
 }
 
 func (s *Server) tryAcquireConcurrency() bool {
 	n := int(s.concurrency.Add(1)) // #nosec G115
 	if n <= s.getConcurrency() {
+		vhook("srv.conc.inc", s, nil, 1, n)
 		return true
 	}
+	vhook("srv.conc.fail", s, nil, 1, n)
 	s.releaseConcurrency()
 	return false
 }
@@ -2321,8 +2327,10 @@ func (s *Server) idleTimeout() time.Duration {
 }
 
 func (s *Server) serveConnCleanup(countConcurrency bool) {
+	vhook("srv.open.dec", s, nil, 0, 0)
 	s.open.Add(-1)
 	if countConcurrency {
+		vhook("srv.conc.dec", s, nil, 0, 0)
 		s.releaseConcurrency()
 	}
 }
@@ -2335,6 +2343,7 @@ func (s *Server) serveConnCounted(c net.Conn, countConcurrency bool) error {
 	defer s.serveConnCleanup(countConcurrency)
 	if countConcurrency {
 		s.concurrency.Add(1)
+		vhook("srv.conc.inc", s, c, 0, 0)
 	}
 
 	proto, err := s.getNextProto(c)
